@@ -790,3 +790,262 @@ def check_bounds_map(prog, res, rule='L7'):
               '%s = max(%s - %s, 0)' % (nm, l, r),
               '%s is not max(%s - %s, 0)' % (nm, l, r))
   res.floor(rule, 8)
+
+
+# ---------------------------------------------------------------------------
+import re
+
+_KEY = re.compile(r'\[([^\]]*)\]')
+
+
+def _split_indices(key):
+  """'L[a[b]-1][j+1]' -> ['a[b]-1', 'j+1'] (bracket aware)"""
+  out, depth, cur = [], 0, ''
+  for ch in key[key.index('['):]:
+    if ch == '[':
+      if depth > 0:
+        cur += ch
+      depth += 1
+    elif ch == ']':
+      depth -= 1
+      if depth == 0:
+        out.append(cur)
+        cur = ''
+      else:
+        cur += ch
+    elif depth > 0:
+      cur += ch
+  return out
+
+
+def _canon(cells, reverse_second=False):
+  """cells: {key text: coef}.  Index variables are replaced by their
+  position, offsets are shifted so that the smallest one per position is 0,
+  optionally the second index is reversed; coefficients are scaled so that
+  the largest absolute value is 1 with a positive leading sign recorded
+  separately.  Returns (sign, frozenset of (offset tuple, coef))."""
+  parsed = []
+  for key, coef in cells.items():
+    idx = _split_indices(key)
+    offs = []
+    for e in idx:
+      m = re.match(r'^(.*?)([+-]\d+)?$', e)
+      if e.isdigit():
+        offs.append(('#', int(e)))
+      elif m and not e[0].isdigit():
+        offs.append((m.group(1), int(m.group(2) or 0)))
+      else:
+        offs.append((e, 0))
+    parsed.append((offs, coef))
+  npos = max(len(p[0]) for p in parsed)
+  mins = {}
+  maxs = {}
+  for offs, _ in parsed:
+    for k, (v, o) in enumerate(offs):
+      mins[(k, v)] = min(mins.get((k, v), o), o)
+      maxs[(k, v)] = max(maxs.get((k, v), o), o)
+  out = []
+  for offs, coef in parsed:
+    t = []
+    for k, (v, o) in enumerate(offs):
+      if v == 'max_main_dim' or (('lattice_sizes' in v or v.endswith(
+          '_size')) and o == -1):
+        t.append(('abs', 'last', 0))
+      elif v == '#' or 'lattice_sizes' in v or v.endswith('_size'):
+        t.append(('abs', v if v != '#' else o, o if v != '#' else 0))
+      else:
+        rel = o - mins[(k, v)]
+        if reverse_second and k == 1:
+          rel = maxs[(k, v)] - o
+        t.append(('rel', k, rel))
+    out.append((tuple(t), coef))
+  scale = max(abs(c) for _, c in out)
+  out = sorted(((t, c / scale) for t, c in out), key=repr)
+  return frozenset(out)
+
+
+def _slacks(prog, fn, loop, case_values):
+  """{local name: slack Form} for `name = tf.reduce_min(expr)` inside loop"""
+  case = Case(case_values)
+  ref = [None]
+  k = Kernel(prog, fn, ('weights_layers',), None, scalars={
+      n: v for n, v in case_values.items()
+      if isinstance(v, (int, float)) and n.isidentifier()})
+  ref[0] = k
+  k.decide = make_decider(ref, case, fn)
+  out = {}
+
+  def run(stmts):
+    for st in stmts:
+      if isinstance(st, ast.Expr):
+        continue    # asserts.append(...)
+      if isinstance(st, ast.For):
+        run(st.body)
+        continue
+      if isinstance(st, ast.If):
+        continue
+      k.step(st)
+      if isinstance(st, ast.Assign) and isinstance(st.targets[0], ast.Name):
+        v = k.env.get(st.targets[0].id)
+        if isinstance(v, Form) and len(v.t) == 1:
+          (a, c), = v.t.items()
+          if a[0] == 'aggmin' and c == 1:
+            out[st.targets[0].id] = a[1].form
+  run(loop.body)
+  return out
+
+
+def check_A4(prog, res, rule='A4'):
+  """The slack each lattice assertion requires to be >= -eps is, up to a
+  positive factor, minus the violation form of the matching group
+  projection (same cells, same orientation, same conditional-direction
+  handling)."""
+  af = prog.function(LL + '.assert_constraints')
+  res.analysed(af)
+  loops = {}
+  for st in af.node.body:
+    if isinstance(st, ast.For):
+      kinds = [n for n in names_read(st.iter) if n in af.all_params]
+      if kinds:
+        loops[kinds[0]] = st
+  table = [
+      # kind, slack name, case for the assertion, projection fn, projection
+      # case, trapezoid half, reversed second index
+      ('monotonicities', 'diff', {}, '_project_partial_monotonicity',
+       {'monotonicities[dimension]': 1, 'unimodalities[dimension]': 0,
+        'is_first_part': True}, None, False),
+      ('edgeworth_trusts', 'diff', {'cond_direction': 1},
+       '_project_partial_edgeworth', {'cond_direction': 1}, None, False),
+      ('edgeworth_trusts', 'diff', {'cond_direction': -1},
+       '_project_partial_edgeworth', {'cond_direction': -1}, None, True),
+      ('trapezoid_trusts', 'lhs_diff', {'cond_direction': 1},
+       '_project_partial_trapezoid', {'cond_direction': 1}, 'lhs', False),
+      ('trapezoid_trusts', 'rhs_diff', {'cond_direction': 1},
+       '_project_partial_trapezoid', {'cond_direction': 1}, 'rhs', False),
+      ('trapezoid_trusts', 'lhs_diff', {'cond_direction': -1},
+       '_project_partial_trapezoid', {'cond_direction': -1}, 'lhs', True),
+      ('trapezoid_trusts', 'rhs_diff', {'cond_direction': -1},
+       '_project_partial_trapezoid', {'cond_direction': -1}, 'rhs', True),
+      ('monotonic_dominances', 'dominant_diff', {},
+       '_project_partial_monotonic_dominance', {'constraint_group[2]': 1},
+       None, False),
+      ('monotonic_dominances', 'weak_diff', {},
+       '_project_partial_monotonic_dominance', {'constraint_group[2]': 0},
+       None, False),
+      ('joint_monotonicities', 'lower_triangle_diff', {},
+       '_project_partial_joint_monotonicity', {'constraint_group[2]': 1},
+       None, False),
+      ('joint_monotonicities', 'upper_triangle_diff', {},
+       '_project_partial_joint_monotonicity', {'constraint_group[2]': 0},
+       None, False),
+  ]
+  n = 0
+  for kind, sname, acase, pname, pcase, half, rev in table:
+    if kind not in loops:
+      raise AnalysisError('assert_constraints: loop over %s vanished' % kind)
+    sl = _slacks(prog, af, loops[kind], acase).get(sname)
+    if sl is None:
+      raise AnalysisError('assert_constraints: slack %s of %s not found' % (
+          sname, kind))
+    pf = prog.function('%s.%s' % (LL, pname))
+    case = Case(pcase)
+    if half is not None:
+      loop = [s for s in pf.node.body if isinstance(s, ast.For)][0]
+      stmts = loop.body[:4] if half == 'lhs' else loop.body[4:]
+      k = extract(prog, pf, case, body=[
+          s for s in pf.node.body if not isinstance(s, ast.For)] + stmts)
+    else:
+      k = extract(prog, pf, case)
+    status, info = classify_projection(k.deltas())
+    key = 'assert:%s.%s%s <-> %s%s' % (
+        kind, sname, '[dir=%s]' % acase['cond_direction']
+        if acase else '', pname, '|' + half if half else '')
+    if status not in ('exact', 'repair'):
+      n += 1
+      res.violation(rule, key, pf.loc(),
+                    'the group update of %s is not a half-space step (%s): it '
+                    'cannot agree with the asserted constraint' % (
+                        pname, info.get('why', status)))
+      continue
+    U = info['normal']
+    S = {a[1]: c for a, c in sl.t.items() if a[0] == 'cell'}
+    minusS = {kk: -v for kk, v in S.items()}
+    cu = _canon(U, reverse_second=rev)
+    cs = _canon(minusS)
+    n += 1
+    res.check(cu == cs, rule, key, af.loc(loops[kind]),
+              'asserted slack = -(projected violation): same cells, same '
+              'orientation',
+              'the assertion requires %s >= -eps but the projection removes '
+              'the violation %s: they do not describe the same half-space '
+              '(canonical forms %s vs %s)' % (
+                  sl, _fmt(U), sorted(cs, key=repr), sorted(cu, key=repr)))
+  res.floor(rule, 11)
+  return n
+
+
+def check_A4_strict(prog, res, rule='A4'):
+  """The violation forms repaired by the strict (approximate) projections
+  are minus the slacks asserted by assert_constraints."""
+  af = prog.function(LL + '.assert_constraints')
+  loops = {}
+  for st in af.node.body:
+    if isinstance(st, ast.For):
+      kinds = [n for n in names_read(st.iter) if n in af.all_params]
+      if kinds:
+        loops[kinds[0]] = st
+
+  def violation(deltas):
+    (cell, d), = deltas.items()
+    U = d if all(c > 0 for c in d.t.values()) else -d
+    V = _nonneg_dominating(U, violation_of)
+    if V is None:
+      raise AnalysisError('strict repair form not extractable')
+    return {a[1]: c for a, c in V.t.items() if a[0] == 'cell'}
+
+  items = []
+  fn = prog.function(LL + '._approximately_project_edgeworth')
+  for direction in (1, -1):
+    k = extract(prog, fn, Case({'cond_direction': direction}))
+    sl = _slacks(prog, af, loops['edgeworth_trusts'],
+                 {'cond_direction': direction})['diff']
+    items.append(('edgeworth[dir=%d]' % direction, violation(k.deltas()), sl,
+                  False))
+  fn = prog.function(LL + '._approximately_project_trapezoid')
+  outer = [s for s in fn.node.body if isinstance(s, ast.For)][0]
+  inner = [s for s in outer.body if isinstance(s, ast.For)][0]
+  for half, stmts, sname in (('lhs', inner.body[:3], 'lhs_diff'),
+                             ('rhs', inner.body[3:], 'rhs_diff')):
+    case = Case({'any_edgeworth': False, 'same_edgeworth': False,
+                 'cond_direction': 1})
+    ref = [None]
+    k = Kernel(prog, fn, ('layers',), None, scalars={
+        'lhs_update': Form.atom(('cell', 'prior')),
+        'rhs_update': Form.atom(('cell', 'prior'))})
+    k.inline_helpers = True
+    ref[0] = k
+    k.decide = make_decider(ref, case, fn)
+    k.run(stmts)
+    sl = _slacks(prog, af, loops['trapezoid_trusts'],
+                 {'cond_direction': 1})[sname]
+    items.append(('trapezoid|%s' % half, violation(k.deltas()), sl, False))
+  fn = prog.function(LL + '._approximately_project_monotonicity')
+  loop = [l for l in ast.walk(fn.node) if isinstance(l, ast.For)
+          and dotted(l.target) == 'i'][0]
+  ref = [None]
+  k = Kernel(prog, fn, ('layers',), None)
+  ref[0] = k
+  k.decide = make_decider(ref, Case({}), fn)
+  k.run(loop.body)
+  sl = _slacks(prog, af, loops['monotonicities'], {})['diff']
+  items.append(('monotonicity', violation(k.deltas()), sl, False))
+  for label, V, sl, rev in items:
+    S = {a[1]: c for a, c in sl.t.items() if a[0] == 'cell'}
+    cu = _canon(V, reverse_second=rev)
+    cs = _canon({kk: -v for kk, v in S.items()})
+    res.check(cu == cs, rule, 'strict:%s' % label, af.loc(),
+              'strict repair removes exactly the violation the assertion '
+              'tests',
+              'strict %s repairs the violation %s but assert_constraints '
+              'requires %s >= -eps: different half-spaces' % (label, _fmt(V),
+                                                              sl))
